@@ -249,6 +249,47 @@ fn late_first_part_record(t: i32, k: u32, j: i64) -> Vec<u8> {
     f
 }
 
+/// Class (g): a record whose parts array is REAL and long (`nparts` entries, part i starting at
+/// i * per_part) while none of the declared nparts * per_part points is present; counts, part
+/// offsets and the record length are mutually consistent. Whatever is reserved per part before
+/// the points are read adds up over the parts.
+fn many_parts_record(t: i32, nparts: usize, per_part: usize) -> Vec<u8> {
+    let npts: i64 = (nparts * per_part) as i64;
+    let per_point: i64 = match t {
+        3 | 5 => 16,
+        23 | 25 => 24,
+        _ => 32,
+    };
+    let ranges: i64 = match t {
+        3 | 5 => 0,
+        23 | 25 => 16,
+        _ => 32,
+    };
+    let kinds: i64 = if t == 31 { 4 * nparts as i64 } else { 0 };
+    let content: i64 = 4 + 32 + 8 + 4 * nparts as i64 + kinds + per_point * npts + ranges;
+    let mut f = vec![0u8; 100];
+    put(&mut f, 0, 9994, true);
+    put(&mut f, 28, 1000, false);
+    put(&mut f, 32, t, false);
+    put(&mut f, 24, ((100 + 8 + content) / 2).min(i32::MAX as i64) as i32, true);
+    f.extend_from_slice(&1i32.to_be_bytes());
+    f.extend_from_slice(&((content / 2).min(i32::MAX as i64) as i32).to_be_bytes());
+    f.extend_from_slice(&t.to_le_bytes());
+    f.extend_from_slice(&[0u8; 32]);
+    f.extend_from_slice(&(nparts as i32).to_le_bytes());
+    f.extend_from_slice(&(npts as i32).to_le_bytes());
+    for i in 0..nparts {
+        f.extend_from_slice(&((i * per_part) as i32).to_le_bytes());
+    }
+    if t == 31 {
+        for _ in 0..nparts {
+            f.extend_from_slice(&2i32.to_le_bytes());
+        }
+    }
+    f.extend_from_slice(&[0u8; 16]);
+    f
+}
+
 /// An index file declaring 2^k entries with nothing behind them.
 fn unbacked_index(k: u32) -> Vec<u8> {
     let mut f = vec![0u8; 100];
@@ -528,6 +569,22 @@ pub fn enumerate(bases: &[Base], ctx: &Ctx, want: &dyn Fn(u64) -> bool, f: &mut 
                 let b = &bases[0];
                 Input { shp: b.shp.clone(), shx: Some(partially_backed_index(k, real, (50, 10))), desc: format!("index header declares 2^{} entries, {} really present", k, real), class: "f:partially-backed-counts" }
             });
+        }
+    }
+    // (g) a long, real parts array in front of points that are not there
+    if !cfg!(miri) {
+        let counts: &[usize] = if thorough { &[300, 2000, 20000] } else { &[300, 2000] };
+        for &t in &[3, 5, 13, 15, 23, 25, 31] {
+            for &nparts in counts {
+                for &per_part in &[1usize, 1024, 1025, 5000] {
+                    if nparts * per_part > 60_000_000 {
+                        continue;
+                    }
+                    case!({
+                        Input { shp: many_parts_record(t, nparts, per_part), shx: None, desc: format!("t{} declares {} parts of {} points each, the parts array is present, no point is", t, nparts, per_part), class: "g:many-parts-no-points" }
+                    });
+                }
+            }
         }
     }
     idx
